@@ -863,7 +863,7 @@ theorem extract_unique {d : Dir} {st : DocState} {cls meth : String} {args : Lis
 def nthDoc (defs : List Elem) (ign : List (Option String)) (j : Nat) : Res String :=
   match defs[j]? with
   | some m => formatDocstring m ign
-  | none => .err "IndexError"
+  | none => .ok ""
 
 theorem extract_ambiguous_first {d : Dir} {st : DocState} {cls meth : String} {args : List String}
     {maybe defs : List Elem} {w : List Warning} {ign : List (Option String)}
